@@ -308,7 +308,29 @@ func (v *VC) structSort(t types.Type, u *types.Struct) string {
 
 var sanRepl = strings.NewReplacer(":", "_", ".", "_", "/", "_", "*", "p", "[", "_", "]", "_", " ", "_", "{", "_", "}", "_", ";", "_", "(", "_", ")", "_", ",", "_", "$", "_", "\"", "_", "-", "_", "#", "_", "=", "_", "<", "_", ">", "_", "|", "_", "&", "_", "'", "_", "\\", "_", "`", "_", "~", "_", "^", "_", "%", "_", "+", "_", "!", "_", "?", "_", "@", "_")
 
-func sanitize(s string) string { return sanRepl.Replace(s) }
+func sanitize(s string) string {
+	s = sanRepl.Replace(s)
+	ascii := true
+	for i := 0; i < len(s); i++ {
+		if s[i] >= 0x80 {
+			ascii = false
+			break
+		}
+	}
+	if ascii {
+		return s
+	}
+	// SMT-LIB simple symbols are ASCII: spell other runes out
+	var sb strings.Builder
+	for _, r := range s {
+		if r < 0x80 {
+			sb.WriteRune(r)
+		} else {
+			fmt.Fprintf(&sb, "_u%04x", r)
+		}
+	}
+	return sb.String()
+}
 
 func intRange(t types.Type) (lo, hi string, ok bool) {
 	b, isb := t.Underlying().(*types.Basic)
